@@ -5,6 +5,9 @@
 // and a scan that finds no terminator runs into the guard page.
 //   <op> <variant> <off> <a> <b> <hex window bytes> <schedule>     schedule: i:off:byte,... or -
 //   variants: val <elsz> | ptr <elsz> | range <elsz> <count> | stru | strs | cmda <num>
+//             cvba <size> | cva : copy_and_verify_buffer_address / copy_and_verify_address on a POINTER CELL that lies in
+//             the window at <off> (a tainted_volatile<char*>); for these the first consultation of the back end during the
+//             range check counts as one more interleave point
 #define RLBOX_USE_EXCEPTIONS
 #define RLBOX_SINGLE_THREADED_INVOCATIONS
 #include <cstddef>
@@ -47,6 +50,12 @@ static void hook(const char*)
     if (it->second.first < g_w) g_win[it->second.first] = it->second.second;
   }
   g_tick++;
+}
+
+static bool g_be_seen = false;
+static void be_hook(const char* site)
+{
+  if (!g_be_seen) { g_be_seen = true; hook(site); }
 }
 
 static std::string hex(const uint8_t* p, size_t n)
@@ -158,6 +167,18 @@ static std::string run_case(const toks_t& t)
       char* c = rlbox::copy_memory_or_deny_access(*g_sb, p, a, false, copied);
       out = inspect(c, a) + " alloc=" + std::to_string(a) + (copied ? "" : " NOTCOPIED");
       std::free(c);
+    } else if (variant == "cvba" || variant == "cva") {
+      auto pp = g_sb->UNSAFE_accept_pointer(reinterpret_cast<char**>(g_win + off));
+      auto& cellref = *pp;      // tainted_volatile<char*>&: the pointer itself lives in sandbox memory
+      g_be_seen = false;
+      rlbox::verif_backend_hook = be_hook;
+      uintptr_t got = 1;
+      try {
+        if (variant == "cvba") cellref.copy_and_verify_buffer_address([&](uintptr_t v) { got = v; return 0; }, a);
+        else cellref.copy_and_verify_address([&](uintptr_t v) { got = v; return 0; });
+      } catch (...) { rlbox::verif_backend_hook = nullptr; throw; }
+      rlbox::verif_backend_hook = nullptr;
+      out = "A " + std::to_string(got == 0 ? 0 : got - g_base);
     } else {
       throw std::runtime_error("HARNESS bad variant");
     }
